@@ -240,8 +240,8 @@ func RunObligation(info *types.Info, body *ast.BlockStmt, spec *OblSpec) *OblRes
 				if cond, ok := last.(ast.Expr); ok {
 					ns = st.clone()
 					for k, v := range ns.keys {
-						if v.born.FailTest == nil {
-							continue
+						if v.born.FailTest == nil || !v.pending {
+							continue // only the first test after the creation decides whether it succeeded
 						}
 						isTest, failedWhenTrue := v.born.FailTest(cond)
 						if !isTest {
